@@ -2,6 +2,7 @@
 
 import io
 import socket
+import zlib
 import sys
 import threading
 import time
@@ -50,7 +51,9 @@ class RecordingStream:
       'partial'- readline returns a line fragment without the LF (consumes it)
     """
 
-    def __init__(self, data: bytes, fault_plan=None, rng=None, record_callers=False, budget=None):
+    def __init__(self, data: bytes, fault_plan=None, rng=None, record_callers=False, budget=None, rtype=None):
+        # rtype=bytearray: read()/readline() hand out a fresh bytearray per call instead of bytes
+        self.rtype = rtype
         self.budget = budget
         self.data = data
         self.pos = 0
@@ -116,7 +119,7 @@ class RecordingStream:
             self.callers[c] = self.callers.get(c, 0) + 1
             if fault:
                 self.callers["F:" + fault + ":" + c] = self.callers.get("F:" + fault + ":" + c, 0) + 1
-        return out
+        return out if self.rtype is None else self.rtype(out)
 
     def readline(self):
         seq = self.calls
@@ -151,11 +154,11 @@ class RecordingStream:
             self.callers[c] = self.callers.get(c, 0) + 1
             if fault:
                 self.callers["F:" + fault + ":" + c] = self.callers.get("F:" + fault + ":" + c, 0) + 1
-        return out
+        return out if self.rtype is None else self.rtype(out)
 
     def readinto(self, b):
         """file-like readinto with the same fault semantics as read()."""
-        out = self.read(len(b))
+        out = bytes(self.read(len(b)))
         b[: len(out)] = out
         return len(out)
 
@@ -196,8 +199,15 @@ class ScriptedSocket(socket.socket):
     When the schedule is exhausted the remaining data arrives as one segment, then b'' (closed).
     """
 
-    def __init__(self, data: bytes, schedule=(), close_at_end=True, budget=None):
+    def __init__(self, data: bytes, schedule=(), close_at_end=True, budget=None, tls=None):
         super().__init__(socket.AF_INET, socket.SOCK_STREAM)
+        # one in four scripted sockets (decided by the data, so replays agree) is TLS-like: a socket that ALSO has
+        # a read(len) method returning at most len bytes of what has arrived, as ssl.SSLSocket has
+        if tls is None:
+            tls = zlib.crc32(bytes(data[:64])) % 4 == 0
+        self.tls = bool(tls)
+        if self.tls:
+            self.read = self._tls_read
         self.budget = budget
         self._vdata = data
         self._vpos = 0
@@ -248,6 +258,9 @@ class ScriptedSocket(socket.socket):
 
     def send(self, data, flags=0):
         return len(data)
+
+    def _tls_read(self, len=1024, buffer=None):
+        return self.recv(len)
 
 
 def socketpair_feed(data: bytes, sizes, delay=0.0005):
